@@ -379,6 +379,9 @@ def m_lines(e, st, a, ctx):
     sv = as_str(e, st, a[0])
     if sv.hint is not None and sv.hint[0] == 'lines':
         return T([V(sv.hint[1], sv.hint[2]), 0], 'iter::Lines')      # text built line by line by the harness
+    if sv.hint is not None and sv.hint[0] == 'nolf':
+        # the text is known to contain no LF (result of replace("\n", "")): at most one line, nothing stripped
+        return T([V(simp(zite(zeq(sv.len, 0), 0, 1)), [S(sv.len, sv.ch)]), 0], 'iter::Lines')
     return T([V(*split_lines(sv)), 0], 'iter::Lines')
 
 
@@ -459,6 +462,7 @@ def m_replace(e, st, a, ctx):
     if sc is not None: return mk_str(sc.replace(pc, rc))
     if len(pc) == 1 and len(rc) <= 2:
         # per-character rewrite, output built left to right
+        nolf = (pc == '\n' and '\n' not in rc) or (sv.hint is not None and sv.hint[0] == 'nolf' and '\n' not in rc)
         out = S(0, [])
         for i, c in enumerate(sv.ch):
             inside = (i < sv.len)
@@ -472,6 +476,7 @@ def m_replace(e, st, a, ctx):
             kept = str_push(out, c)
             out = merge(hit, rep, merge(keep, kept, out))
             out = S(simp(out.len), out.ch)
+        if nolf: out = S(out.len, out.ch, ('nolf',))
         return out
     raise Abort('replace: unsupported symbolic shape')
 
@@ -1443,7 +1448,12 @@ def materialise(e, st, it):
         return V(v.len, [PV(x) for x in v.it])
     if ty in ('std::ops::Range', 'core::ops::Range'):
         lo, hi = it.f
-        if is_sym(lo) or is_sym(hi): raise Abort('materialise symbolic range')
+        if is_sym(lo) or is_sym(hi):
+            cap = getattr(e, 'range_cap', None)
+            if cap is None: raise Abort('materialise symbolic range (no range_cap set by the harness)')
+            n = simp(zite(hi > lo, hi - lo, 0))
+            e.oblige(st, simp(n <= cap), 'model bound: symbolic range longer than %d' % cap, 'unwind')
+            return V(n, [lo + k for k in range(cap)])
         return V(max(0, hi - lo), list(range(lo, hi)))
     if ty == 'iter::Map':
         mv, idx, kind, byref = it.f
@@ -1646,3 +1656,9 @@ def m_split_term_next(e, st, a, ctx): return m_split_next(e, st, a, ctx)
 
 @model(r'<std::str::SplitTerminator<\'_, .*> as std::iter::IntoIterator>::into_iter')
 def m_split_term_into(e, st, a, ctx): return a[0]
+
+
+@model(r'core::str::<impl str>::is_char_boundary', r'std::string::String::is_char_boundary')
+def m_is_char_boundary(e, st, a, ctx):
+    sv = as_str(e, st, a[0]); b = a[1]; off = byte_offsets(sv)
+    return simp(zor(*[zand(zeq(off[i], b), i <= sv.len) for i in range(len(sv.ch) + 1)]))
